@@ -53,107 +53,216 @@ Section Copy.
     end.
 End Copy.
 
-(** Complete sweep over all buffers of at most [N] words, as index lists: every
-    (pos, dist, len) with 1 <= dist <= pos and pos + len <= N. *)
-Definition copy_cases (N : nat) : list (nat * nat * nat) :=
-  flat_map (fun pos => flat_map (fun dist => map (fun len => (pos, dist, len)) (seq 0 (N - pos + 1)))
-                                (seq 1 pos)) (seq 1 N).
+(* ------------------------------------------------------------------ *)
+(** * The unbounded theorem: both sides are the unique solution of the
+      recurrence  res[j] = res[j - dist]  on [pos, pos+len),  res[j] = data[j]
+      elsewhere. *)
 
-Definition copy_agree_on (N : nat) : bool :=
-  forallb (fun '(pos, dist, len) =>
-             if list_eq_dec Nat.eq_dec (copy_block O (seq 1 N) pos dist len) (copy_fwd O len (seq 1 N) pos dist)
-             then true else false)
-          (copy_cases N).
+Section CopyProof.
+  Context {A : Type}.
+  Variable d : A.
 
-(** Both sides only move elements, so they commute with [map]; hence agreement on
-    the index list [seq 1 N] (0 standing for the out-of-range default) is agreement
-    on every buffer of length N. *)
-Lemma set_nth_map {A B} (f : A -> B) n v (l : list A) : map f (set_nth n v l) = set_nth n (f v) (map f l).
-Proof.
-  revert n; induction l as [|x tl IH]; intros n; [destruct n; reflexivity|].
-  destruct n as [|n]; cbn [set_nth map]; [reflexivity|now rewrite IH].
-Qed.
+  Lemma nth_firstn_lt (l : list A) : forall n i, (i < n)%nat -> nth i (firstn n l) d = nth i l d.
+  Proof.
+    induction l as [|x l IH]; intros n i Hi; [now rewrite firstn_nil|].
+    destruct n as [|n]; [lia|]. destruct i as [|i]; cbn [firstn nth]; [reflexivity|]. apply IH. lia.
+  Qed.
 
-Lemma copy_fwd_map {A B} (f : A -> B) (da : A) n : forall data pos dist,
-  map f (copy_fwd da n data pos dist) = copy_fwd (f da) n (map f data) pos dist.
-Proof.
-  induction n as [|n IH]; intros data pos dist; cbn [copy_fwd]; [reflexivity|].
-  rewrite IH, set_nth_map, map_nth. reflexivity.
-Qed.
+  Lemma nth_skipn' (l : list A) : forall n i, nth i (skipn n l) d = nth (n + i) l d.
+  Proof.
+    induction l as [|x l IH]; intros n i.
+    - rewrite skipn_nil. now destruct i, n.
+    - destruct n as [|n]; [reflexivity|]. cbn [skipn Nat.add nth]. apply IH.
+  Qed.
 
-Lemma blit_map {A B} (f : A -> B) data from to n : map f (blit data from to n) = blit (map f data) from to n.
-Proof. unfold blit. now rewrite !map_app, !firstn_map, !skipn_map, firstn_map. Qed.
+  Lemma set_nth_length (l : list A) : forall i v, length (set_nth i v l) = length l.
+  Proof.
+    induction l as [|x l IH]; intros i v; [now destruct i|].
+    destruct i; cbn [set_nth length]; [reflexivity|now rewrite IH].
+  Qed.
 
-Lemma map_repeat' {A B} (f : A -> B) v n : map f (repeat v n) = repeat (f v) n.
-Proof. induction n as [|n IH]; cbn [repeat map]; [reflexivity|now rewrite IH]. Qed.
+  Lemma nth_set_nth_same (l : list A) : forall i v, (i < length l)%nat -> nth i (set_nth i v l) d = v.
+  Proof.
+    induction l as [|x l IH]; intros i v Hi; [cbn in Hi; lia|].
+    destruct i; cbn [set_nth nth]; [reflexivity|]. apply IH. cbn in Hi. lia.
+  Qed.
 
-Lemma fill_map {A B} (f : A -> B) data to n v : map f (fill data to n v) = fill (map f data) to n (f v).
-Proof. unfold fill. now rewrite !map_app, firstn_map, skipn_map, map_repeat'. Qed.
+  Lemma nth_set_nth_other (l : list A) : forall i j v, i <> j -> nth j (set_nth i v l) d = nth j l d.
+  Proof.
+    induction l as [|x l IH]; intros i j v Hij; [now destruct i|].
+    destruct i, j; cbn [set_nth nth]; try reflexivity; try lia. apply IH. lia.
+  Qed.
 
-Lemma double_loop_map {A B} (f : A -> B) fuel : forall data pos len copied,
-  map f (double_loop fuel data pos len copied) = double_loop fuel (map f data) pos len copied.
-Proof.
-  induction fuel as [|fuel IH]; intros data pos len copied; cbn [double_loop]; [reflexivity|].
-  destruct (len <=? copied)%nat; [reflexivity|]. now rewrite IH, blit_map.
-Qed.
+  Lemma blit_length (data : list A) from to n :
+    (from + n <= length data)%nat -> (to + n <= length data)%nat -> length (blit data from to n) = length data.
+  Proof.
+    intros H1 H2. unfold blit. rewrite !app_length, !firstn_length, !skipn_length. lia.
+  Qed.
 
-Lemma copy_block_map {A B} (f : A -> B) (da : A) data pos dist len :
-  map f (copy_block da data pos dist len) = copy_block (f da) (map f data) pos dist len.
-Proof.
-  unfold copy_block. destruct (len <=? dist)%nat; [apply blit_map|].
-  destruct (dist =? 1)%nat; [now rewrite fill_map, map_nth|].
-  now rewrite double_loop_map, blit_map.
-Qed.
+  Lemma nth_blit (data : list A) from to n j :
+    (from + n <= length data)%nat -> (to + n <= length data)%nat ->
+    nth j (blit data from to n) d =
+    if ((to <=? j) && (j <? to + n))%nat then nth (from + (j - to)) data d else nth j data d.
+  Proof.
+    intros H1 H2. unfold blit.
+    destruct (Nat.ltb_spec j to) as [Hlt|Hge].
+    - replace ((to <=? j) && (j <? to + n))%nat with false by lia.
+      rewrite app_nth1 by (rewrite firstn_length; lia). apply nth_firstn_lt. lia.
+    - rewrite app_nth2 by (rewrite firstn_length; lia). rewrite firstn_length.
+      replace (Nat.min to (length data)) with to by lia.
+      destruct (Nat.ltb_spec j (to + n)) as [Hin|Hout].
+      + replace ((to <=? j) && true)%nat with true by lia.
+        rewrite app_nth1 by (rewrite firstn_length, skipn_length; lia).
+        rewrite nth_firstn_lt by lia. apply nth_skipn'.
+      + replace ((to <=? j) && false)%nat with false by lia.
+        rewrite app_nth2 by (rewrite firstn_length, skipn_length; lia).
+        rewrite firstn_length, skipn_length. rewrite nth_skipn'. f_equal. lia.
+  Qed.
 
-Lemma map_nth_seq {A} (d : A) (l : list A) : map (fun i => nth i l d) (seq 0 (length l)) = l.
-Proof.
-  induction l as [|x tl IH]; [reflexivity|].
-  cbn [length seq map nth]. f_equal. rewrite <- seq_shift, map_map. exact IH.
-Qed.
+  Lemma nth_repeat_lt (v : A) : forall n i, (i < n)%nat -> nth i (repeat v n) d = v.
+  Proof. induction n as [|n IH]; intros i Hi; [lia|]. destruct i; cbn [repeat nth]; [reflexivity|apply IH; lia]. Qed.
 
-Definition copy_bound : nat := 40.
+  Lemma fill_length (data : list A) to n v : (to + n <= length data)%nat -> length (fill data to n v) = length data.
+  Proof. intros H. unfold fill. rewrite !app_length, firstn_length, repeat_length, skipn_length. lia. Qed.
 
-Lemma copy_sweep : forallb copy_agree_on (seq 0 (S copy_bound)) = true.
-Proof. vm_compute. reflexivity. Qed.
+  Lemma nth_fill (data : list A) to n v j : (to + n <= length data)%nat ->
+    nth j (fill data to n v) d = if ((to <=? j) && (j <? to + n))%nat then v else nth j data d.
+  Proof.
+    intros H. unfold fill.
+    destruct (Nat.ltb_spec j to) as [Hlt|Hge].
+    - replace ((to <=? j) && (j <? to + n))%nat with false by lia.
+      rewrite app_nth1 by (rewrite firstn_length; lia). apply nth_firstn_lt. lia.
+    - rewrite app_nth2 by (rewrite firstn_length; lia). rewrite firstn_length.
+      replace (Nat.min to (length data)) with to by lia.
+      destruct (Nat.ltb_spec j (to + n)) as [Hin|Hout].
+      + replace ((to <=? j) && true)%nat with true by lia.
+        rewrite app_nth1 by (rewrite repeat_length; lia). apply nth_repeat_lt. lia.
+      + replace ((to <=? j) && false)%nat with false by lia.
+        rewrite app_nth2 by (rewrite repeat_length; lia). rewrite repeat_length, nth_skipn'. f_equal. lia.
+  Qed.
 
-Lemma copy_cases_in N pos dist len :
-  (1 <= dist <= pos)%nat -> (pos + len <= N)%nat -> In (pos, dist, len) (copy_cases N).
-Proof.
-  intros Hd Hl. unfold copy_cases.
-  apply in_flat_map. exists pos. split; [apply in_seq; lia|].
-  apply in_flat_map. exists dist. split; [apply in_seq; lia|].
-  apply in_map_iff. exists len. split; [reflexivity|apply in_seq; lia].
-Qed.
+  (** the recurrence *)
+  Definition rec_ok (data : list A) (pos dist len : nat) (res : list A) : Prop :=
+    length res = length data /\
+    (forall j, (j < pos \/ pos + len <= j)%nat -> nth j res d = nth j data d) /\
+    (forall j, (pos <= j < pos + len)%nat -> nth j res d = nth (j - dist) res d).
 
-(** copyBlock32 = the pixel-by-pixel definition, for every element type, every
-    buffer of at most 40 words and every in-range (pos, dist, len): complete sweep
-    over the index behaviour, lifted to arbitrary contents by naturality.
-    (The unbounded statement is [copy_block_eq_statement].) *)
-Theorem copy_block_eq_bounded : forall (A : Type) (d : A) (data : list A) pos dist len,
-  (length data <= copy_bound)%nat -> (1 <= dist <= pos)%nat -> (pos + len <= length data)%nat ->
-  copy_block d data pos dist len = copy_fwd d len data pos dist.
-Proof.
-  intros A d data pos dist len HN Hd Hl.
-  set (N := length data).
-  pose proof copy_sweep as Hs. rewrite forallb_forall in Hs.
-  specialize (Hs N). assert (HinN : In N (seq 0 (S copy_bound))) by (apply in_seq; unfold N; lia).
-  specialize (Hs HinN). unfold copy_agree_on in Hs. rewrite forallb_forall in Hs.
-  specialize (Hs (pos, dist, len) (copy_cases_in N pos dist len Hd Hl)). cbn beta iota in Hs.
-  destruct (list_eq_dec Nat.eq_dec (copy_block 0%nat (seq 1 N) pos dist len)
-                        (copy_fwd 0%nat len (seq 1 N) pos dist)) as [E|]; [|discriminate].
-  set (f := fun i => match i with O => d | S j => nth j data d end).
-  assert (Hdata : map f (seq 1 N) = data).
-  { rewrite <- seq_shift, map_map. unfold f. apply map_nth_seq. }
-  rewrite <- Hdata.
-  transitivity (map f (copy_block O (seq 1 N) pos dist len)).
-  - symmetry. apply (copy_block_map f O).
-  - rewrite E. apply (copy_fwd_map f O).
-Qed.
+  Lemma rec_unique data pos dist len r1 r2 : (1 <= dist <= pos)%nat ->
+    rec_ok data pos dist len r1 -> rec_ok data pos dist len r2 -> r1 = r2.
+  Proof.
+    intros Hd (L1 & O1 & R1) (L2 & O2 & R2).
+    apply (nth_ext _ _ d d); [lia|]. intros j _.
+    induction j as [j IH] using lt_wf_ind.
+    destruct (Nat.lt_ge_cases j pos) as [Hlt|Hge]; [rewrite O1, O2 by lia; reflexivity|].
+    destruct (Nat.lt_ge_cases j (pos + len)) as [Hin|Hout]; [|rewrite O1, O2 by lia; reflexivity].
+    rewrite R1, R2 by lia. apply IH. lia.
+  Qed.
 
-Definition copy_block_eq_statement : Prop :=
-  forall (A : Type) (d : A) (data : list A) pos dist len,
-  (1 <= dist <= pos)%nat -> (pos + len <= length data)%nat ->
-  copy_block d data pos dist len = copy_fwd d len data pos dist.
+  Lemma copy_fwd_rec : forall n data pos dist,
+    (1 <= dist <= pos)%nat -> (pos + n <= length data)%nat ->
+    rec_ok data pos dist n (copy_fwd d n data pos dist).
+  Proof.
+    induction n as [|n IH]; intros data pos dist Hd Hl.
+    - cbn [copy_fwd]. split; [reflexivity|]. split; [intros; reflexivity|intros; lia].
+    - cbn [copy_fwd]. set (data' := set_nth pos (nth (pos - dist) data d) data).
+      assert (Hl' : length data' = length data) by apply set_nth_length.
+      destruct (IH data' (S pos) dist ltac:(lia) ltac:(lia)) as (L & O & R).
+      split; [lia|]. split.
+      + intros j Hj. rewrite O by lia. unfold data'. apply nth_set_nth_other. lia.
+      + intros j Hj. destruct (Nat.eq_dec j pos) as [->|Hne].
+        * rewrite O by lia. rewrite (O (pos - dist)%nat) by lia.
+          unfold data'. rewrite nth_set_nth_same by lia. now rewrite nth_set_nth_other by lia.
+        * apply R. lia.
+  Qed.
+
+  Lemma periodic (cur : list A) pos dist c :
+    (forall j, (pos <= j < pos + c)%nat -> nth j cur d = nth (j - dist) cur d) ->
+    forall m j, (pos + m * dist <= j < pos + c)%nat -> nth j cur d = nth (j - m * dist) cur d.
+  Proof.
+    intros R m. induction m as [|m IH]; intros j Hj; [f_equal; lia|].
+    rewrite Nat.mul_succ_l in *. rewrite R by lia. rewrite IH by lia. f_equal. lia.
+  Qed.
+
+  Lemma double_loop_rec (data : list A) pos dist len : (1 <= dist <= pos)%nat -> (pos + len <= length data)%nat ->
+    forall fuel cur copied,
+    rec_ok data pos dist copied cur -> (copied <= len)%nat -> (len - copied <= fuel)%nat ->
+    ((exists k, (1 <= k)%nat /\ copied = (k * dist)%nat) \/ copied = len) ->
+    rec_ok data pos dist len (double_loop fuel cur pos len copied).
+  Proof.
+    intros Hd Hl fuel. induction fuel as [|fuel IH]; intros cur copied Hrec Hc Hf Hk.
+    - cbn [double_loop]. replace len with copied by lia. exact Hrec.
+    - cbn [double_loop]. destruct (Nat.leb_spec len copied) as [Hdone|Hmore].
+      + replace len with copied by lia. exact Hrec.
+      + destruct Hk as [(k & Hk1 & Hk2)|Hk]; [|lia].
+        set (n := Nat.min copied (len - copied)).
+        destruct Hrec as (L & O & R).
+        assert (Hn : (1 <= n)%nat) by (unfold n; nia).
+        assert (Hb1 : (pos + n <= length cur)%nat) by (unfold n; lia).
+        assert (Hb2 : (pos + copied + n <= length cur)%nat) by (unfold n; lia).
+        apply IH; [| unfold n; lia | unfold n; lia |].
+        * split; [rewrite blit_length by lia; lia|]. split.
+          -- intros j Hj. rewrite nth_blit by lia.
+             replace ((pos + copied <=? j) && (j <? pos + copied + n))%nat with false by lia.
+             apply O. lia.
+          -- intros j Hj. rewrite !nth_blit by lia.
+             destruct (Nat.lt_ge_cases j (pos + copied)) as [Hold|Hnew].
+             ++ replace ((pos + copied <=? j) && (j <? pos + copied + n))%nat with false by lia.
+                replace ((pos + copied <=? j - dist) && (j - dist <? pos + copied + n))%nat with false by lia.
+                apply R. lia.
+             ++ replace ((pos + copied <=? j) && (j <? pos + copied + n))%nat with true by lia.
+                replace (pos + (j - (pos + copied)))%nat with (j - copied)%nat by lia.
+                destruct (Nat.lt_ge_cases (j - dist) (pos + copied)) as [Hp|Hq].
+                ** replace ((pos + copied <=? j - dist) && (j - dist <? pos + copied + n))%nat with false by lia.
+                   (* j - dist and j - copied differ by (k-1) periods *)
+                   assert (E : nth (j - dist) cur d = nth (j - dist - (k - 1) * dist) cur d).
+                   { apply (periodic cur pos dist copied R). nia. }
+                   rewrite E. f_equal. nia.
+                ** replace ((pos + copied <=? j - dist) && (j - dist <? pos + copied + n))%nat with true by lia.
+                   replace (pos + (j - dist - (pos + copied)))%nat with (j - copied - dist)%nat by lia.
+                   apply R. unfold n in *. lia.
+        * unfold n. destruct (Nat.min_spec copied (len - copied)) as [[_ ->]|[_ ->]].
+          -- left. exists (2 * k)%nat. split; nia.
+          -- right. lia.
+  Qed.
+
+  Theorem copy_block_eq : forall (data : list A) pos dist len,
+    (1 <= dist <= pos)%nat -> (pos + len <= length data)%nat ->
+    copy_block d data pos dist len = copy_fwd d len data pos dist.
+  Proof.
+    intros data pos dist len Hd Hl.
+    apply (rec_unique data pos dist len); [lia| |apply copy_fwd_rec; assumption].
+    unfold copy_block.
+    destruct (Nat.leb_spec len dist) as [Hshort|Hlong].
+    - (* one memmove *)
+      split; [apply blit_length; lia|]. split.
+      + intros j Hj. rewrite nth_blit by lia.
+        replace ((pos <=? j) && (j <? pos + len))%nat with false by lia. reflexivity.
+      + intros j Hj. rewrite !nth_blit by lia.
+        replace ((pos <=? j) && (j <? pos + len))%nat with true by lia.
+        replace ((pos <=? j - dist) && (j - dist <? pos + len))%nat with false by lia.
+        f_equal. lia.
+    - destruct (Nat.eqb_spec dist 1) as [->|Hne].
+      + (* fill *)
+        split; [apply fill_length; lia|]. split.
+        * intros j Hj. rewrite nth_fill by lia.
+          replace ((pos <=? j) && (j <? pos + len))%nat with false by lia. reflexivity.
+        * intros j Hj. rewrite !nth_fill by lia.
+          replace ((pos <=? j) && (j <? pos + len))%nat with true by lia.
+          destruct (Nat.eq_dec j pos) as [->|Hjp].
+          -- replace ((pos <=? pos - 1) && (pos - 1 <? pos + len))%nat with false by lia. reflexivity.
+          -- replace ((pos <=? j - 1) && (j - 1 <? pos + len))%nat with true by lia. reflexivity.
+      + (* first period, then doubling *)
+        apply double_loop_rec; try lia.
+        * split; [apply blit_length; lia|]. split.
+          -- intros j Hj. rewrite nth_blit by lia.
+             replace ((pos <=? j) && (j <? pos + dist))%nat with false by lia. reflexivity.
+          -- intros j Hj. rewrite !nth_blit by lia.
+             replace ((pos <=? j) && (j <? pos + dist))%nat with true by lia.
+             replace ((pos <=? j - dist) && (j - dist <? pos + dist))%nat with false by lia.
+             f_equal. lia.
+        * left. exists 1%nat. lia.
+  Qed.
+End CopyProof.
 
 (* ------------------------------------------------------------------ *)
 (** * expandColorMap *)
